@@ -26,6 +26,8 @@ var (
 //	                                    the k-th time (default first) the point <name> is reached
 //	VERIF_SIGNAL_AT=<name>[#k]:<signal> the process sends itself SIGINT / SIGTERM / SIGQUIT there
 //	VERIF_TRACE=<file>                  every point reached is appended to <file>
+//	VERIF_PAUSE_AT=<name>[#k]:<file>    the process creates <file>.reached there and waits (at most 20 s) until
+//	                                    <file> exists: a controller can run other processes in between
 func VerifPoint(name string) {
 	if VerifHook != nil {
 		VerifHook(name)
@@ -45,6 +47,19 @@ func VerifPoint(name string) {
 
 	if c := os.Getenv("VERIF_CRASH_AT"); c != "" && verifMatch(c, name, cnt) {
 		os.Exit(137)
+	}
+
+	if s := os.Getenv("VERIF_PAUSE_AT"); s != "" {
+		if i := strings.LastIndex(s, ":"); 0 < i && verifMatch(s[:i], name, cnt) {
+			f := s[i+1:]
+			_ = os.WriteFile(f+".reached", nil, 0644)
+			for k := 0; k < 4000; k++ {
+				if _, err := os.Stat(f); err == nil {
+					break
+				}
+				time.Sleep(5 * time.Millisecond)
+			}
+		}
 	}
 
 	if s := os.Getenv("VERIF_SIGNAL_AT"); s != "" {
